@@ -676,7 +676,7 @@ func (c *Ctx) sortedByCaller(fi *load.FuncInfo) {
 		lfn, lan := c.Analysis(less)
 		recv := less.Decl.Recv.List[0].Names[0]
 		pi, pj := less.Decl.Type.Params.List[0].Names[0], less.Decl.Type.Params.List[0].Names[1]
-		nret := 0
+		nret, nOrient := 0, 0
 		ast.Inspect(less.Decl.Body, func(x ast.Node) bool {
 			ret, ok := x.(*ast.ReturnStmt)
 			if !ok {
@@ -697,13 +697,78 @@ func (c *Ctx) sortedByCaller(fi *load.FuncInfo) {
 			default:
 				// creation-time tie-break: only under equal Revision
 				c.Implies(st, eqRev, "C13.2-comparator", name, ret.Pos())
+				// ... and oldest first: what the truncation deletes is the front of the sorted slice, so among revisions of
+				// equal number the earlier creation time sorts lower (i before j, or j after i)
+				asc, desc := orientation(less.Pkg.TypesInfo, ret.Results[0], less.Pkg.TypesInfo.ObjectOf(pi), less.Pkg.TypesInfo.ObjectOf(pj))
+				switch {
+				case desc > 0:
+					c.Bad("C13.2-comparator-oldest-first", name, ret.Pos(), "the tie-break among revisions of equal number orders the later creation time first: the truncation, which deletes from the front, then removes the newest of them and keeps the oldest")
+				case asc > 0:
+					nOrient++
+					c.OK("C13.2-comparator-oldest-first", name, ret.Pos(), "the element at the first index sorts lower when it was created earlier")
+				}
 			}
 			return true
 		})
 		c.Floor("C13.2-comparator-returns", nret, 3)
+		c.Floor("C13.2-comparator-orientation", nOrient, 1)
 	} else {
 		c.Fail("byRevision.Less does not resolve")
 	}
+}
+
+// orientation counts, among the comparisons e is built from, those that put the element at index i first when its
+// key is lower or earlier (asc) and those that put it first when its key is higher or later (desc). A comparison is
+// x < y, x > y (also <=, >=) or x.Before(y), x.After(y) with one side read from the cell at i and the other from the cell at j.
+func orientation(info *types.Info, e ast.Expr, pi, pj types.Object) (asc, desc int) {
+	side := func(x ast.Expr) int {
+		r := 0
+		ast.Inspect(x, func(n ast.Node) bool {
+			if ix, ok := n.(*ast.IndexExpr); ok {
+				if id, ok := ast.Unparen(ix.Index).(*ast.Ident); ok {
+					switch info.ObjectOf(id) {
+					case pi:
+						r |= 1
+					case pj:
+						r |= 2
+					}
+				}
+			}
+			return true
+		})
+		return r
+	}
+	count := func(x, y ast.Expr, lower bool) {
+		sx, sy := side(x), side(y)
+		switch {
+		case sx == 1 && sy == 2 && lower, sx == 2 && sy == 1 && !lower:
+			asc++
+		case sx == 1 && sy == 2 && !lower, sx == 2 && sy == 1 && lower:
+			desc++
+		}
+	}
+	ast.Inspect(e, func(n ast.Node) bool {
+		switch v := n.(type) {
+		case *ast.BinaryExpr:
+			switch v.Op {
+			case token.LSS, token.LEQ:
+				count(v.X, v.Y, true)
+			case token.GTR, token.GEQ:
+				count(v.X, v.Y, false)
+			}
+		case *ast.CallExpr:
+			if sel, ok := v.Fun.(*ast.SelectorExpr); ok && len(v.Args) == 1 {
+				switch sel.Sel.Name {
+				case "Before":
+					count(sel.X, v.Args[0], true)
+				case "After":
+					count(sel.X, v.Args[0], false)
+				}
+			}
+		}
+		return true
+	})
+	return
 }
 
 // listerFilters: C13.3/C10.4 (owner filter) and C13.4 (de-duplication) on the revision lister.
